@@ -511,9 +511,102 @@ def cases_c14(ctx, boost):
     return out
 
 
+# =============================================================================== C13
+def cases_c13(ctx, boost):
+    import itertools
+    from pymodel import head as chead, ctext, cbytes
+    out = []
+    chars = {1: "a", 2: "é", 3: "€", 4: "😀"}
+    for cfg in ctx.cfgs(("000",)):
+        g = ctx.gen(cfg)
+        rng = g.rng
+        refs = {key: path for path, key, _ in g.all_refs()}
+        ukey = [k for k in refs if k.endswith("PublicKeyCredentialUserEntity")][0]
+        rkey = [k for k in refs if k.endswith("PublicKeyCredentialRpEntity")][0]
+
+        def user(name=None, display=None, icon=None, raw_name=None):
+            ents = [(ctext("id"), cbytes(b"\x01\x02"))]
+            if icon is not None:
+                ents.append((ctext("icon"), ctext(icon)))
+            if name is not None:
+                ents.append((ctext("name"), ctext(name)))
+            if raw_name is not None:
+                ents.append((ctext("name"), chead(3, len(raw_name)) + raw_name))
+            if display is not None:
+                ents.append((ctext("displayName"), ctext(display)))
+            return chead(5, len(ents)) + b"".join(k + v for k, v in ents)
+
+        def rp(name=None, icon=None, key="icon", raw=None):
+            ents = [(ctext("id"), ctext("example.com"))]
+            if name is not None:
+                ents.append((ctext("name"), ctext(name)))
+            if icon is not None:
+                ents.append((ctext(key), ctext(icon)))
+            if raw is not None:
+                ents.append((ctext(key), chead(3, len(raw)) + raw))
+            return chead(5, len(ents)) + b"".join(k + v for k, v in ents)
+
+        def add(key, b, tag):
+            out.append(Case("dec", cfg, f"dec {cfg} {key} {b.hex()}", f"dec {cfg} {refs[key]} {b.hex()}", tag=tag))
+
+        # every character-width pattern around the 64-byte cut, for every alignment
+        plen = 4 if ctx.tier == "quick" else 6
+        for pat in itertools.product((1, 2, 3, 4), repeat=plen):
+            for start in (56, 57, 58, 59, 60, 61, 62, 63):
+                if ctx.tier == "quick" and start < 60:
+                    continue
+                s = "a" * start + "".join(chars[w] for w in pat) + "zz"
+                site = rng.randrange(3)
+                if site == 0:
+                    add(ukey, user(name=s), "width pattern user.name")
+                elif site == 1:
+                    add(ukey, user(display=s, name="n"), "width pattern user.displayName")
+                else:
+                    add(rkey, rp(name=s), "width pattern rp.name")
+        for n in range(0, 301, 1 if ctx.tier == "thorough" else 7):
+            add(ukey, user(name=casegen.rand_utf8(rng, n).decode()), "name length")
+            add(ukey, user(icon="i" * n), "icon length")
+            add(rkey, rp(icon="u" * n, key=rng.choice(["icon", "url"])), "rp icon length")
+        for n in (63, 64, 65, 66, 67, 127, 128, 129, 130, 255, 256, 257):
+            add(ukey, user(name="é" * (n // 2) + "x" * (n % 2), icon=casegen.rand_utf8(rng, n).decode()), "boundary")
+            add(rkey, rp(name="😀" * (n // 4) + "y" * (n % 4), icon="€" * (n // 3)), "boundary")
+        # ill-formed UTF-8 at every position of a short text, in each text member
+        base = "aé€😀z".encode()
+        for i in range(len(base)):
+            for bad in (0x80, 0xC0, 0xF5, 0xFF, 0xED):
+                raw = bytearray(base); raw[i] = bad
+                add(ukey, user(raw_name=bytes(raw)), "ill-formed name")
+                add(rkey, rp(raw=bytes(raw), key=rng.choice(["icon", "url"])), "ill-formed icon")
+        for raw in (b"\xed\xa0\x80", b"\xf4\x90\x80\x80", b"\xc0\xaf", b"\xe0\x9f\xbf", b"\xf0\x8f\xbf\xbf", b"a" * 70 + b"\xf0\x9f\x98"):
+            add(ukey, user(raw_name=raw), "ill-formed special")
+        # inside full requests
+        mc = [k for k in refs if k.endswith("make_credential::Request")]
+        if mc:
+            for s in ("a" * 61 + "😀" + "b", "a" * 62 + "€€", "x" * 300):
+                ents = [(chead(0, 1), cbytes(b"h" * 32)), (chead(0, 2), rp(name=s, icon="i" * 200)),
+                        (chead(0, 3), user(name=s, display=s, icon="j" * 129)),
+                        (chead(0, 4), chead(4, 1) + chead(5, 2) + ctext("alg") + bytes([0x26]) + ctext("type") + ctext("public-key"))]
+                b = chead(5, 4) + b"".join(k + v for k, v in ents)
+                out.append(Case("req", cfg, f"req {cfg} 01{b.hex()}", tag="inside MakeCredential"))
+    return out
+
+
 NOT_YET = {}
 
 PROPS = {
+    "C13": {"ns": "C13", "cases": cases_c13,
+            "level_text": "Proof. UTF-8 theory in Lean (Ctap/Utf8Thm.lean): validUtf8 peels one scalar of 1-4 bytes at a time "
+                          "(validUtf8_step), each scalar is one boundary byte + <=3 continuation bytes (scalar_shape), hence "
+                          "floor_char_boundary with a 3-byte look-back never reaches unwrap_unchecked(None) on well-formed text "
+                          "and returns the start of the character containing the index (floorCharBoundary_valid, by strong "
+                          "induction, no length bound); truncateStr_valid: no panic at &s[..split] / push_str().unwrap(); "
+                          "truncated_spec: the result is a prefix, <= 64 bytes, well-formed, made of whole characters and maximal; "
+                          "user icon kept iff <= 128 bytes else absent; rp icon/url accepted and discarded; ill-formed UTF-8 "
+                          "rejected. Obligations: the lossy readers sit where the specification says with capacities 64/128 and "
+                          "window 3 (6 sites x 8 configurations).",
+            "rule": "all character-width patterns (4 chars quick / 6 thorough) at 4 (8) alignments around the 64-byte cut; lengths "
+                    "0..300; icons 0..300 incl. 127/128/129; ill-formed bytes at every position; inside MakeCredential",
+            "assumptions": ["core::str::from_utf8 accepts exactly Unicode table 3-7 (modelled as validUtf8)"]},
     "C14": {"ns": "C14", "cases": cases_c14,
             "level_text": "Proof. The two filtering visit_seq loops are modelled as folds with push(..).ok() semantics "
                           "(filterFold, attFmtLoop/attFmtFold); list inductions show, for lists of any length, that the result "
